@@ -210,6 +210,8 @@ func optsOf(s string) receiver.TransferOpts {
 		DryRun: h("n"), PreserveLinks: h("l"), PreserveDevices: h("D"), PreserveSpecials: h("S"), PreservePerms: h("p"),
 		PreserveTimes: h("t"), PreserveUid: h("o"), PreserveGid: h("g"), IgnoreTimes: h("I"), AlwaysChecksum: h("c"),
 		Server: true, InfoGTE: falseInfo, DebugGTE: falseDebug,
+		// reporting options must not change what is done (a verbose dry run is still a dry run)
+		Verbose: h("v"), Progress: h("P"),
 	}
 }
 
@@ -390,12 +392,12 @@ func suiteGen(h *H) {
 		return
 	}
 	kinds := []byte("fdlcbps")
-	optPool := []string{"", "n", "p", "t", "pt", "l", "lp", "D", "S", "DS", "lptgoDS", "nlptgoDS", "c", "I", "cI", "tc", "tI", "ptc", "og", "nc", "nI", "ln", "nDS", "lt"}
+	optPool := []string{"", "n", "p", "t", "pt", "l", "lp", "D", "S", "DS", "lptgoDS", "nlptgoDS", "c", "I", "cI", "tc", "tI", "ptc", "og", "nc", "nI", "ln", "nDS", "lt", "nv", "nvlptgoDS", "v", "vpt", "nvog", "nvP"}
 	oldT := int64(1500000000)
 	mt := []int64{oldT, oldT + 1, oldT - 1, 0, -1, -86400 * 365, 2147483647, -2147483648, 1600000000}
 	// (1) decision table of the update rule (C12), exhaustive: existing regular file x
 	//     {same/different size} x {mtime equal, +-1, far} x {content equal/different} x option sets x -t
-	for _, opts := range []string{"", "t", "c", "tc", "I", "tI", "cI", "tcI", "n", "nt", "nc", "nI", "p", "pt", "np", "npt", "ntc", "nptc", "nptcog", "ptc", "ptcog"} {
+	for _, opts := range []string{"", "t", "c", "tc", "I", "tI", "cI", "tcI", "n", "nt", "nc", "nI", "p", "pt", "np", "npt", "ntc", "nptc", "nptcog", "ptc", "ptcog", "nvptcog", "nvog", "nvt", "vtc"} {
 		for _, dsize := range []int64{100, 101, 0} {
 			for _, dm := range []int64{0, 1, -1, 100000} {
 				for _, same := range []bool{true, false} {
